@@ -52,6 +52,17 @@ pub(crate) fn reset() {
     CONTENT_SANITY_MAP.write().unwrap().clear()
 }
 
+/// Verification hook (feature `verif`): forget the effects of an earlier (caught) sanity-check
+/// panic so that the next check starts from a clean content map.
+#[cfg(feature = "verif")]
+pub(crate) fn verif_reset_after_panic() {
+    CONTENT_SANITY_MAP.clear_poison();
+    CONTENT_SANITY_MAP
+        .write()
+        .unwrap_or_else(|e| e.into_inner())
+        .clear();
+}
+
 /// Checks whether the input global specifications fit within the current upper bound for all global metadata (limited by `metadata::constants::LOG_GLOBAL_SIDE_METADATA_WORST_CASE_RATIO`).
 ///
 /// Returns `Ok` if all global specs fit and `Err` otherwise.
